@@ -474,10 +474,10 @@ Proof. intros Hf. induction n; simpl; auto. now rewrite empty_no_match. Qed.
 
 Lemma init_WF : WF (stk init_sst).
 Proof.
-  constructor; simpl.
+  constructor; cbn [stk init_sst].
   - apply repeat_length.
   - apply Forall_forall. intros x Hx. apply repeat_spec in Hx. left; auto.
-  - generalize MAX_STACK. induction n; simpl; auto. split; auto. intros H. simpl in H. lia.
+  - generalize MAX_STACK. induction n; simpl; auto; split; auto; intros H; lia.
 Qed.
 Lemma init_agree : agree (abs (stk init_sst)) amap0.
 Proof. intros f b o Hf. unfold abs. simpl. now rewrite repeat_empty_find. Qed.
